@@ -1,5 +1,5 @@
 (* C11 — executable model of the molar / mass / volumetric views of thermosteam streams.
-   Source modelled (with the pending repairs C11_1..C11_6 and C13_3 applied, see props/C11.py):
+   Source modelled (/repo HEAD with the pending repairs C11_1..C11_5 applied, see props/C11.py):
      indexer.py        by_mass, by_volume (both classes), _data_cache, reset_chemicals (both classes),
                        ChemicalIndexer.copy_like / to_material_indexer, MaterialIndexer.copy_like /
                        _expand_phases / to_material_indexer / to_chemical_indexer
@@ -329,13 +329,16 @@ Definition unit_of (u : nat) : option (view * Q) := nth u utab None.
 (* ---------- structural operations ---------- *)
 Definition zero_rows (n m : nat) : list vec := repeat (vzero m) n.
 
-(* ChemicalIndexer.to_material_indexer (Stream.phases setter) *)
+(* ChemicalIndexer.to_material_indexer (Stream.phases setter): non-empty data goes to its phase (or the other case) *)
 Definition single_to_multi h i s (l : list phase) : heap * outcome :=
   let ps := psort l in
-  match pindex ps (getbox h (pbox s)) with
+  let row := getrow h (sdata s) in
+  let zs := zero_rows (length ps) (nchem (pkg s)) in
+  match (if any_nonzero row
+         then option_map (fun t => upd zs t row) (pindex ps (getbox h (pbox s)))
+         else Some zs) with
   | None => (h, XDomain)          (* the real setter raises after changing the class: C12's subject *)
-  | Some t =>
-      let vals := upd (zero_rows (length ps) (nchem (pkg s))) t (getrow h (sdata s)) in
+  | Some vals =>
       let '(rs, h1) := new_rows h vals in
       let '(a, h2) := new_arr h1 rs in
       let '(c, h3) := new_cache h2 in
@@ -442,7 +445,8 @@ Definition copy_like h i s o (same : bool) : heap * outcome :=
       | [p] => let h1 := put_box h (pbox s) p in
                (put_row h1 (sdata s) (nth O (all_rows h1 o) []), XNone)
       | _ =>
-        match single_to_multi h i s (phs o) with
+        (* self.empty(); self.phases = other.phases; self._imol.copy_like(other._imol); TP *)
+        match single_to_multi (put_row h (sdata s) (vzero (length (getrow h (sdata s))))) i s (phs o) with
         | (h1, XNone) =>
             match nth_error (streams h1) i with
             | Some s1 => (copy_tp (copy_rows_like h1 (rowrefs h1 s1) (rowrefs h1 o)) s1 o, XNone)
